@@ -11,4 +11,15 @@ def s1(test, qchecks, tchecks, qshards=4, tshards=16, timeout_q=240, timeout_t=1
 
 TESTS = {
     "C01": [s1("TestC01_S1Conformance", 20000, 250000)],
+    "C03": [s1("TestC03_S1Visibility", 20000, 250000)],
+    "C04": [s1("TestC04_S1Bound", 15000, 200000)],
+    "C05": [s1("TestC05_S1Bookkeeping", 15000, 200000)],
+    "C06": [s1("TestC06_S1Events", 15000, 200000)],
+    "C07": [s1("TestC07_S1Justified", 20000, 250000)],
+    "C10": [s1("TestC10_S1Loads", 20000, 250000)],
+    "C11": [s1("TestC11_S1Refresh", 20000, 250000), s1("TestC11_S1NoRefresh", 3000, 30000, qshards=1, tshards=4)],
+    "C12": [s1("TestC12_S1Deadlines", 20000, 250000)],
+    "C13": [s1("TestC13_S1Sweep", 20000, 250000)],
+    "C19": [s1("TestC19_S1SaveLoad", 15000, 200000)],
+    "C20": [s1("TestC20_S1Stats", 20000, 250000)],
 }
